@@ -39,6 +39,10 @@ type Exec struct {
 	addrBoxes         map[string]AddrV
 	noSafety          bool
 	appendMode        int
+	memo              map[string]*memoEntry
+	groups            map[string][][]Term
+	memoHits          int
+	noMemo            bool
 	lastAppendTrivial bool
 	canaryN           map[string]int
 }
